@@ -169,6 +169,7 @@ cdef class DictBoxSortNNPS(NNPS):
 
         # initialize the cells dict
         self.cells = {}
+        self.sort_gids = sort_gids
 
         # compute the intial box sort. First, the Domain Manager's
         # update method is called to comptue the maximum smoothing
@@ -296,7 +297,7 @@ cdef class DictBoxSortNNPS(NNPS):
             nbrs.length = count
 
         if self.sort_gids:
-            self._sort_neighbors(nbrs.data, count, s_gid.data)
+            self._sort_neighbors(nbrs.data, nbrs.length, s_gid.data)
 
     #### Private protocol ################################################
 
